@@ -438,6 +438,9 @@ func main() {
 	nMain := len(inputs)
 	// size classes (threshold-crossing valid bodies), run in shared-batch workers
 	inputs = append(inputs, GenerateSizes(genOpts{Thorough: r.Thorough()}, nMain)...)
+	// database outcome x body size (portion counts derived from the limits found in doParse / doPush)
+	limits, limitsWhere := ScanLimits(ev.Repo())
+	inputs = append(inputs, GenerateDBX(genOpts{Thorough: r.Thorough()}, len(inputs), limits)...)
 	byID := map[int]*Input{}
 	for i := range inputs {
 		byID[inputs[i].ID] = &inputs[i]
@@ -457,7 +460,8 @@ func main() {
 
 	// ---- shard files (round-robin, rotated by VERIF_SEED)
 	const ks = 4 // shared-batch shards (indexes nw .. nw+ks-1)
-	nsh := nw + ks
+	const kb = 4 // shards of the database-outcome x body-size inputs (indexes nw+ks .. nw+ks+kb-1): ordinary workers, long deadline
+	nsh := nw + ks + kb
 	shards := make([][]shardItem, nsh)
 	files := make([]string, nsh)
 	{
@@ -479,6 +483,9 @@ func main() {
 			}
 			if inputs[i].Gen == "size" {
 				k = nw + i%ks
+			}
+			if inputs[i].Gen == "dbx" {
+				k = nw + ks + i%kb
 			}
 			b, _ := json.Marshal(&inputs[i])
 			b = append(b, '\n')
@@ -516,6 +523,9 @@ func main() {
 		if in.Gen == "size" {
 			return runWorker(plShared, f, 0, 1, 10*time.Second, noProgress)
 		}
+		if in.Gen == "dbx" {
+			return runWorker(pl, f, 0, 1, 30*time.Second, 90*time.Second)
+		}
 		return runWorker(pl, f, 0, 1, deadline, noProgress)
 	}
 
@@ -533,12 +543,18 @@ func main() {
 				}
 				gen++
 				shPool, shDeadline := pl, firstPass
-				if k >= nw {
+				if k >= nw+ks {
+					shDeadline = 30 * time.Second // ten-portion bodies, ten retries per portion, slow database
+				} else if k >= nw {
 					// flush interval of shared-batch workers: 100 ms; a refused block is retried 10 times (repository
 					// default), so a request may legitimately take a second or more
 					shPool, shDeadline = plShared, 10*time.Second
 				}
-				wr := runWorker(shPool, files[k], shards[k][pos].Offset, -1, shDeadline, noProgress)
+				shNoProgress := noProgress
+				if k >= nw+ks {
+					shNoProgress = 90 * time.Second // request deadline 30 s + quiescence polling up to 10 s
+				}
+				wr := runWorker(shPool, files[k], shards[k][pos].Offset, -1, shDeadline, shNoProgress)
 				mu.Lock()
 				if routes == nil && wr.Routes != nil {
 					routes = wr.Routes
@@ -644,6 +660,7 @@ func main() {
 	// only if the input, re-run alone 3 times in fresh workers (10x longer polling bound), leaves goroutines behind
 	// every time
 	leaksDropped := 0
+	leakNotRerun := map[string]int{}
 	if harnessErr == "" && len(seedFail) == 0 {
 		var ids []int
 		for id, res := range results {
@@ -661,6 +678,22 @@ func main() {
 			}
 			ids = ids[:300]
 		}
+		// at most 3 confirmations per class (site, family); further suspects of a class are only counted
+		perClass := map[string]int{}
+		var keep []int
+		for _, id := range ids {
+			res := results[id]
+			ck := strings.Fields(res.Leaked[0])[0] + ":" + byID[id].Family
+			if perClass[ck] >= 3 {
+				leakNotRerun[ck]++
+				res.Leaked = nil
+				results[id] = res
+				continue
+			}
+			perClass[ck]++
+			keep = append(keep, id)
+		}
+		ids = keep
 		var lwg sync.WaitGroup
 		for _, id := range ids {
 			lwg.Add(1)
@@ -691,6 +724,7 @@ func main() {
 		lwg.Wait()
 	}
 	r.Extra["goroutine_leak_suspects_not_reproduced_in_3_solo_reruns"] = leaksDropped
+	r.Extra["goroutine_leak_suspects_of_classes_already_being_confirmed_not_rerun"] = leakNotRerun
 	pl.close()
 	plShared.close()
 	if len(seedFail) > 0 {
@@ -733,6 +767,14 @@ func main() {
 	// ---- judge
 	judgeAll(r, inputs, results, culprits)
 	r.Extra["inputs_generated"] = len(inputs)
+	r.Extra["small_integer_limits_in_doParse_doPush"] = map[string]any{"values": limits, "where": limitsWhere}
+	nDBX := 0
+	for i := range inputs {
+		if inputs[i].Gen == "dbx" {
+			nDBX++
+		}
+	}
+	r.Extra["database_outcome_x_body_size_inputs"] = nDBX
 	r.Extra["string_literals_compared_in_ingest_code"] = literals
 	r.Extra["request_headers_read_by_ingest_code"] = litHeaders
 	nShared, nSize := 0, 0
@@ -849,7 +891,10 @@ func judgeAll(r *ev.Run, inputs []Input, results map[int]Result, culprits []culp
 		r.Transitions++
 		r.TracesValidated++
 		r.Distinct(in.Route + "|" + in.Family + "|" + in.Gen + "|" + in.Desc)
-		wf, why := wellFormed(in)
+		wf, why := true, ""
+		if in.Big == nil {
+			wf, why = wellFormed(in)
+		}
 		cls := "malformed"
 		if wf {
 			cls = "wellformed"
@@ -864,6 +909,8 @@ func judgeAll(r *ev.Run, inputs []Input, results map[int]Result, culprits []culp
 		}
 		okStatus := familyOK[in.Family]
 		switch {
+		case res.Status/100 == 2 && in.DB == "all_fail" && res.Requests > 0 && (in.Big != nil || in.SeedBody):
+			violate(r, "acknowledged_although_every_insert_failed:"+in.Family, describe(in)+fmt.Sprintf(": answered %d although ClickHouse refused every INSERT of the request", res.Status), in, res)
 		case res.Status/100 == 2 && in.Family != "health" && !res.SharedMode && (res.Requests == 0 || (in.SeedBody && res.Inserts == 0)):
 			// acknowledged, but nothing was handed to an insert service / the valid seed's rows reached no INSERT
 			violate(r, "acknowledged_without_ingest:"+shape(in), describe(in)+fmt.Sprintf(": answered %d although nothing was ingested (calls into insert services: %d, INSERT blocks: %d)", res.Status, res.Requests, res.Inserts), in, res)
@@ -880,7 +927,15 @@ func judgeAll(r *ev.Run, inputs []Input, results map[int]Result, culprits []culp
 		for _, is := range res.Issues {
 			violate(r, "non_rectangular_block:"+token(strings.Fields(is.Query + " ? ? ?")[2])+":"+shape(in), describe(in)+fmt.Sprintf(": INSERT block handed to ClickHouse is not rectangular or empty: %s rows per column %v", is.Query, is.Rows), in, res)
 		}
-		if len(res.Leaked) > 0 {
+		stillWorking := false
+		for _, l := range res.Leaked {
+			if in.Gen == "dbx" && (strings.Contains(l, "[run") || strings.Contains(l, "[syscall") || strings.Contains(l, "[sleep") || strings.Contains(l, "[IO wait")) {
+				stillWorking = true // not parked: the machine is too slow for the polling bound, not a verdict
+			}
+		}
+		if stillWorking {
+			r.Cap(fmt.Sprintf("input %d (%s): goroutines of the request were still working when the polling bound ended: %v", in.ID, in.Desc, res.Leaked))
+		} else if len(res.Leaked) > 0 {
 			violate(r, "goroutine_left_behind:"+strings.Fields(res.Leaked[0])[0]+":"+in.Family, describe(in)+fmt.Sprintf(": goroutines created by the request are still there after the grace period: %v", res.Leaked), in, res)
 		}
 		if res.FollowDone {
